@@ -4,7 +4,7 @@
 usage: python3 /verif/kani/run_kani.py <group> [--tier quick|thorough] [--repo /repo] [--base /repo]
                                        [--only SUBSTR ...] [--jobs N] [--timeout SEC] [--keep]
 
-group in {c17, k-ascii, k-as, k-dt}
+group in {c17, k-ascii, k-as, k-dt, k-bytes}
 
 What it does
   1. copies the CURRENT working tree of --repo (Cargo.toml, Cargo.lock, a2lfile, a2lmacros; never
@@ -108,6 +108,10 @@ GROUPS = {
         "harnesses": [H("kani_k_ascii::k_ascii_" + n, "none (all 256 byte values)", complete=True)
                       for n in ("whitespace", "digit", "alphabetic", "alphanumeric", "hexdigit")],
     },
+    "k-bytes": {
+        "harnesses": [H("kani_k_bytes::k_bytes_" + n, "none (full input domain)", complete=True)
+                      for n in ("u32", "u16", "from_u32", "latin1")],
+    },
     "k-as": {
         "harnesses": [H("kani_k_as::k_as_" + t, "none (all u64 values)", complete=True)
                       for t in ("u8", "u16", "u32", "u64", "i8", "i16", "i32", "i64")],
@@ -134,6 +138,9 @@ def inject(group, scratch_repo):
     if group == "k-ascii":
         shutil.copy(os.path.join(HERE, "k_ascii.rs"), os.path.join(src, "kani_k_ascii.rs"))
         append_mod(os.path.join(src, "lib.rs"), "kani_k_ascii.rs", "kani_k_ascii")
+    elif group == "k-bytes":
+        shutil.copy(os.path.join(HERE, "k_bytes.rs"), os.path.join(src, "kani_k_bytes.rs"))
+        append_mod(os.path.join(src, "lib.rs"), "kani_k_bytes.rs", "kani_k_bytes")
     elif group == "k-as":
         shutil.copy(os.path.join(HERE, "k_as.rs"), os.path.join(src, "kani_k_as.rs"))
         append_mod(os.path.join(src, "lib.rs"), "kani_k_as.rs", "kani_k_as")
